@@ -123,6 +123,29 @@ def k3_shapes(tier):
     return out
 
 
+# -- ODB: forward indexing through the real block files ------------------------------------------
+
+def odb(shape):
+    '''Forward indexing through the real asynchronous shell with the REAL OnDiskBlock: the stub daemon's get_block
+    writes the raw block file, the real prefetcher and chunked reader (chunk size scaled from 25 MB down to 61..150
+    bytes, so blocks span several chunks and chunks end inside and between transactions) feed advance_block; at
+    quiescence the index must equal the reference (the checks of C07's stories).'''
+    from props import c07
+    return c07.scenario(shape)
+
+
+def odb_shapes(tier):
+    cbA, cbB = {'cb': 'A'}, {'cb': 'B'}
+    s3 = {'cb': 'C', 'txs': [{'ins': 1, 'outs': 'A'}, {'ins': 1, 'outs': 'B'}, {'ins': 1, 'outs': 'AC'}]}
+    s2 = {'cb': 'B', 'txs': [{'ins': 2, 'outs': 'CA'}, {'ins': 1, 'outs': 'F'}]}
+    base = {'real_odb': True, 'sessions': True, 'early': False, 'deviations': 0}
+    sizes = (61, 150) if tier == 'quick' else (61, 90, 97, 150, 211, 400)
+    out = [dict(base, chunk_size=cs, initial=[cbA, cbB, cbA, cbB, s3], script=[('block', s2), ('block', s3)]) for cs in sizes]
+    # the first one also under one solver-chosen schedule deviation (prefetch / advance / flush interleavings)
+    out[0] = dict(out[0], deviations=1)
+    return out
+
+
 # -- K1 ----------------------------------------------------------------------------------------
 
 def k1(shape):
@@ -366,6 +389,17 @@ def k2_shapes(tier):
 
 
 KERNELS = [
+    Kernel('ODB', odb, odb_shapes,
+           desc='forward indexing through the real OnDiskBlock (block files, prefetcher, chunked reader) with blocks '
+                'spanning several read chunks',
+           encodes=['electrumx/server/block_processor.py:OnDiskBlock.prefetch_many', 'streamed_block', 'iter_txs', '_read',
+                    '__enter__', 'BlockProcessor.advance_blocks', 'advance_block', 'fetch_and_process_blocks',
+                    'electrumx/lib/tx.py:Deserializer.read_tx_and_hash'],
+           bounds='a 5-block start and two further blocks of 3..4 really serialised transactions; read chunk scaled from '
+                  '25 MB down to 61 and 150 (quick) / 61, 90, 97, 150, 211, 400 (thorough) bytes; content concrete; the first '
+                  'shape under one solver-chosen schedule deviation, the others FIFO (concrete companions)',
+           outside='symbolic content (K3), other chunk sizes (C13-K3 proves the reader for every chunk size)',
+           assumptions=['as C07 (daemon, sleeps, worker threads are stubs)'], witnesses=1),
     Kernel('K3', k3, k3_shapes,
            desc='symbolic chain from genesis through advance_block / flush_dbs, UTXO read paths vs reference',
            encodes=['electrumx/server/block_processor.py:BlockProcessor.advance_block', 'spend_utxo', 'flush',
